@@ -606,6 +606,112 @@ fn unmerged(actions: &[Act], depth: usize, goals: &Arc<Mutex<std::collections::B
     })
 }
 
+/// Contexts with many variables and long single-variable histories.
+fn scaling(thorough: bool) -> Stats {
+    let mut st = Stats::new();
+    let vals = values();
+    let mk = |history: String, fault: String| Violation {
+        property: ID,
+        kind: "model-divergence".into(),
+        input: json!({"history": [history], "codes": []}),
+        expected: "listing, lookups and return values equal the abstract map model".into(),
+        actual: fault,
+        test: String::new(),
+    };
+    for n in super::scale::sizes(thorough) {
+        let mut real = HCtx::new();
+        let mut model = RCtx::new();
+        let name = |i: usize| format!("var_{}", i);
+        // n variables of cycling types, half through the API, half through expressions
+        for i in 0..n {
+            let v = &vals[i % vals.len()];
+            if i % 2 == 0 || v.literal().is_none() {
+                let r = real.set_value(name(i), v.to_ev());
+                let m = model.set(&name(i), v.clone());
+                if r.is_ok() != m.is_ok() {
+                    st.violation(mk(format!("set_value of {} variables", n), format!("variable {}: {:?} vs model {:?}", i, r, m)));
+                }
+            } else {
+                let src = format!("{} = {}", name(i), v.literal().unwrap());
+                let r = evalexpr::eval_with_context_mut(&src, &mut real);
+                let m = model.set(&name(i), v.clone());
+                if r.is_ok() != m.is_ok() {
+                    st.violation(mk(format!("{} variables", n), format!("`{}`: {:?} vs model {:?}", src, r, m)));
+                }
+            }
+            st.transitions += 1;
+        }
+        st.evaluations += n as u64;
+        let listing_ok = |real: &HCtx, model: &RCtx| -> Option<String> {
+            let listed = observe_vars(real);
+            let want: Vec<(String, String)> = model.vars.iter().map(|(k, v)| (k.clone(), v.key())).collect();
+            let mut names: Vec<String> = real.iter_variable_names().collect();
+            names.sort();
+            if listed != want {
+                return Some(format!("iter_variables has {} entries, model {}", listed.len(), want.len()));
+            }
+            if names != model.vars.keys().cloned().collect::<Vec<_>>() {
+                return Some("iter_variable_names differs from the model".into());
+            }
+            for (k, v) in &model.vars {
+                if real.get_value(k).map(|x| RV::from_ev(x).bits_eq(v)) != Some(true) {
+                    return Some(format!("get_value({}) differs from the model", k));
+                }
+            }
+            None
+        };
+        if let Some(f) = listing_ok(&real, &model) {
+            st.violation(mk(format!("{} variables set", n), f));
+        }
+        // retype attempts are refused for every variable, same-type overwrites succeed
+        let snapshot = real.clone();
+        for i in 0..n {
+            let cur = &vals[i % vals.len()];
+            let other = &vals[(i + 2) % vals.len()];
+            let r = real.set_value(name(i), other.to_ev());
+            let m = model.set(&name(i), other.clone());
+            let ok = match (&r, &m) {
+                (Ok(()), Ok(())) => true,
+                (Err(e), Err(me)) => crate::refmodel::interp::err_matches(me, e),
+                _ => false,
+            };
+            if !ok {
+                st.violation(mk(format!("{} variables, then set_value({}, {}) over {}", n, name(i), other.key(), cur.key()), format!("{:?} vs model {:?}", r, m)));
+            }
+            st.transitions += 1;
+        }
+        if let Some(f) = listing_ok(&real, &model) {
+            st.violation(mk(format!("{} variables after overwrite attempts", n), f));
+        }
+        // the clone taken before is untouched by what happened since
+        if observe_vars(&snapshot).len() != n {
+            st.violation(mk(format!("clone of a context with {} variables", n), "clone changed with the original".into()));
+        }
+        real.clear_variables();
+        model.vars.clear();
+        if let Some(f) = listing_ok(&real, &model) {
+            st.violation(mk(format!("{} variables cleared", n), f));
+        }
+        // a long single-variable history: n op-assigns
+        let mut c = HCtx::new();
+        let mut m = RCtx::new();
+        let _ = evalexpr::eval_with_context_mut("a = 0; s = \"\"", &mut c);
+        m.vars.insert("a".into(), RV::Int(0));
+        m.vars.insert("s".into(), RV::Str(String::new()));
+        for i in 0..n {
+            let _ = evalexpr::eval_with_context_mut("a += 3; a -= 1; s += \"x\"", &mut c);
+            m.vars.insert("a".into(), RV::Int(2 * (i as i64 + 1)));
+            m.vars.insert("s".into(), RV::Str("x".repeat(i + 1)));
+            st.transitions += 3;
+        }
+        if let Some(f) = listing_ok(&c, &m) {
+            st.violation(mk(format!("{} rounds of `a += 3; a -= 1; s += \"x\"`", n), f));
+        }
+        st.count("scaling-family-contexts");
+    }
+    st
+}
+
 pub fn run(cfg: &Cfg) -> Report {
     let mut stats = Stats::new();
     let mut extra = serde_json::Map::new();
@@ -665,12 +771,13 @@ pub fn run(cfg: &Cfg) -> Report {
             stats.sample(json!({"goal": name, "first_history_reaching_it": history_json(h)}));
         }
     }
+    stats.merge(scaling(cfg.tier == Tier::Thorough));
     // distinct non-trivial = unique abstract states reached (each a distinct context content)
     stats.add("nontrivial-distinct", stats.states);
     Report {
         property: ID,
         level: "model_checking",
-        rule: format!("explicit-state breadth-first search (stateright) from the empty context; a state is the real HashMapContext paired with the abstract map model, merged by (sorted observation of the real context, model); every transition calls the real API on a clone (set_value; `n = lit`; `n op= lit` for the 8 op-assign operators x one right-hand side per type; `n = m`; `n = unbound`; clear_variables / clear_functions / clear; set_function; builtin switch; clone-and-continue) over names {{a, b}} (+ never-bound c), 12 values (two per scalar type, tuples of length 0/1/2, Empty); after every transition the return value and the complete observation (get_value of every name, both listings, call_function of every function name, builtin switch, reads through eval_with_context) are compared with the model, and the parent state must be unchanged. Closed sub-machine to closure; with op-assign inside a magnitude box (|int| <= 8, strings <= 3 bytes, closed float set): transitions leaving the box are executed and checked but not expanded; plus all unmerged histories of depth {depth} over the full action alphabet. Non-trivial/distinct = unique abstract states"),
+        rule: format!("explicit-state breadth-first search (stateright) from the empty context; a state is the real HashMapContext paired with the abstract map model, merged by (sorted observation of the real context, model); every transition calls the real API on a clone (set_value; `n = lit`; `n op= lit` for the 8 op-assign operators x one right-hand side per type; `n = m`; `n = unbound`; clear_variables / clear_functions / clear; set_function; builtin switch; clone-and-continue) over names {{a, b}} (+ never-bound c), 12 values (two per scalar type, tuples of length 0/1/2, Empty); after every transition the return value and the complete observation (get_value of every name, both listings, call_function of every function name, builtin switch, reads through eval_with_context) are compared with the model, and the parent state must be unchanged. Closed sub-machine to closure; with op-assign inside a magnitude box (|int| <= 8, strings <= 3 bytes, closed float set): transitions leaving the box are executed and checked but not expanded; plus all unmerged histories of depth {depth} over the full action alphabet; plus scaling families: contexts with n variables of cycling types (set, listed, looked up, retyped, cloned, cleared) and n rounds of op-assigns on one variable, n in 1..20 and up to 129 / 1..40 and up to 400. Non-trivial/distinct = unique abstract states"),
         nontrivial_set: "counter:nontrivial-distinct",
         exhaustive: true,
         bound_completed: format!("closed machine: closure; boxed machine: {}; unmerged histories: depth {}", match cfg.tier { Tier::Quick => "depth 3", Tier::Thorough => "fixpoint of the box" }, depth),
@@ -713,6 +820,11 @@ pub fn replay(case: &J) -> i32 {
         type_at_clear: Default::default(),
     };
     let mut st = Stats::new();
+    if codes.is_empty() {
+        // a scaling-family case: the families are cheap, re-run them
+        st = scaling(true);
+        return super::replay_verdict(ID, &st);
+    }
     for c in codes {
         let a = parse_act(c.as_str().unwrap_or("")).unwrap_or_else(|| machinery_error("C04 replay: unknown action"));
         s = step(&s, &a);
